@@ -162,6 +162,37 @@ fn c05() -> Outcome {
             if !close(ec.evaluated_value, ref_val(&cfun(c), &s).unwrap()) || ec.equality != c.equality || ec.removed_reason != reason { fail!(n, "constraint {} reported as value {} equality {} reason {:?}", ec.id, ec.evaluated_value, ec.equality, ec.removed_reason); }
         }
         if sol.state.as_ref().map(|x| &x.entries) != Some(&s) { fail!(n, "reported state {:?} differs from the given complete state {s:?}", sol.state.map(|x| x.entries)); }
+        // incomplete and out-of-bound states: "the reported state contains ... for variables the problem does not use, the value inside their bound nearest to zero;
+        // a state that violates a variable's bound by more than 1e-7 or lacks a variable the problem uses is rejected"
+        let mut used: BTreeSet<u64> = ref_ids(&i.objective.clone().unwrap_or_default());
+        for c in &i.constraints { used.extend(ref_ids(&cfun(c))); }
+        for c in &i.removed_constraints { used.extend(ref_ids(&cfun(c.constraint.as_ref().unwrap()))); }
+        let bound_of = |v: &v1::DecisionVariable| v.bound.as_ref().map(|b| (b.lower, b.upper)).unwrap_or(if v.kind == Kind::Binary as i32 { (0.0, 1.0) } else { (f64::NEG_INFINITY, f64::INFINITY) });
+        for v in &i.decision_variables {
+            let mut t = s.clone(); t.remove(&v.id);
+            let r2 = i.evaluate(&st(&t));
+            if used.contains(&v.id) {
+                if let Ok((sol2, _)) = r2 { fail!(n, "Instance::evaluate accepted a state without a value for variable {}, which the problem uses (objective / active / removed constraints): state {t:?}, reported {:?}", v.id, sol2.state.map(|x| x.entries)); }
+            } else {
+                let (lo, up) = bound_of(v);
+                let want = if lo >= 0.0 { lo } else if up <= 0.0 { up } else { 0.0 };
+                match r2 {
+                    Err(e) => fail!(n, "Instance::evaluate rejected a state that omits only the unused variable {} ({e}): state {t:?}", v.id),
+                    Ok((sol2, _)) => {
+                        let got = sol2.state.as_ref().and_then(|x| x.entries.get(&v.id).copied());
+                        if got != Some(want) { fail!(n, "unused variable {} with bound [{lo}, {up}] omitted from the state: reported value {got:?}, the point of the bound nearest to zero is {want}", v.id); }
+                        if !close(sol2.objective, want_obj) || sol2.feasible != all || sol2.feasible_relaxed != Some(rel) { fail!(n, "omitting the unused variable {} from the state changed objective / feasibility", v.id); }
+                        for (k, x) in &t { if sol2.state.as_ref().and_then(|y| y.entries.get(k)) != Some(x) { fail!(n, "omitting the unused variable {} from the state changed the reported value of variable {k}", v.id); } }
+                    }
+                }
+            }
+            let (lo, up) = bound_of(v);
+            for bad in [up + 0.5, lo - 0.5, up + 3e-7, lo - 3e-7] {
+                if !bad.is_finite() { continue; }
+                let mut t = s.clone(); t.insert(v.id, bad);
+                if let Ok(_) = i.evaluate(&st(&t)) { fail!(n, "Instance::evaluate accepted the value {bad} for variable {} (kind {}, used={}) whose bound is [{lo}, {up}]", v.id, v.kind, used.contains(&v.id)); }
+            }
+        }
     }
     ok(n)
 }
